@@ -219,6 +219,17 @@ def check_add(ctx):
               detail="edges compared with isclose", construct="add-edges")
 
 
+def _is_none_on(p, name):
+    """Does the path condition say `name is None` (however the test is spelled: `is None` taken, `is not None` refused)?"""
+    for t, pol in p.literals():
+        if isinstance(t, ast.Compare) and len(t.ops) == 1 and isinstance(t.left, ast.Name) and t.left.id == name \
+                and isinstance(t.comparators[0], ast.Constant) and t.comparators[0].value is None \
+                and isinstance(t.ops[0], (ast.Is, ast.IsNot, ast.Eq, ast.NotEq)):
+            if isinstance(t.ops[0], (ast.Is, ast.Eq)) == bool(pol):
+                return True
+    return False
+
+
 def stores_on_path(p, start=0):
     out = []
     for e in p.ev[start:]:
@@ -234,8 +245,9 @@ def check_consistent(ctx):
     res = ctx.res
     fn = ctx.tree.func(HIST, "histogram.scale")
     n = 0
+    other_param = ([q for q in A.func_params(fn) if q != "self"] or ["other"])[0]
     for p in P.paths_of(fn):
-        if p.end == "raise" or "other is None" in p.literal_srcs():
+        if p.end == "raise" or _is_none_on(p, other_param):
             continue
         n += 1
         st = set(stores_on_path(p))
@@ -597,6 +609,39 @@ def check_pairing(ctx):
                   and l.iter.args and A.src(l.iter.args[0]) == index and isinstance(l.target, ast.Tuple)]
             ok = len(en) == 1
             why = "no `for axis, i in enumerate(index)`"
+            comps = [g for g in A.walk_body(prod[0].body) if isinstance(g, (ast.GeneratorExp, ast.ListComp)) and len(g.generators) == 1
+                     and isinstance(g.generators[0].iter, ast.Call) and A.call_name(g.generators[0].iter) == "enumerate"
+                     and g.generators[0].iter.args and A.src(g.generators[0].iter.args[0]) == index]
+            if not en and len(comps) == 1 and isinstance(comps[0].generators[0].target, ast.Tuple) and not comps[0].generators[0].ifs:
+                # the same pairing as one expression: tuple((edges[axis][i], edges[axis][i + 1]) for axis, i in enumerate(index))
+                g = comps[0]
+                ax, ii = [A.src(e) for e in g.generators[0].target.elts]
+                el = g.elt
+                okc = isinstance(el, ast.Tuple) and len(el.elts) == 2 and A.norm_src(el.elts[0]) == "%s[%s][%s]" % (ep, ax, ii) \
+                    and A.norm_src(el.elts[1]) in ("%s[%s][%s + 1]" % (ep, ax, ii), "%s[%s][1 + %s]" % (ep, ax, ii))
+                why = "the bounds per axis are `%s`, not (edges[axis][i], edges[axis][i + 1])" % A.short(el, 60)
+                if okc:
+                    holder = A.parent(g)
+                    okc = isinstance(holder, ast.Call) and A.call_name(holder) == "tuple" and len(holder.args) == 1
+                    why = "the per-axis bounds are not collected with tuple(...)"
+                if okc:
+                    ys = [y for y in A.walk_body(prod[0].body) if isinstance(y, ast.Yield)]
+                    okc = len(ys) == 1 and isinstance(ys[0].value, ast.Tuple) and len(ys[0].value.elts) == 2 and A.src(ys[0].value.elts[0]) == binv
+                    why = "the yielded pair is `%s`, not (content, bounds)" % (A.src(ys[0].value) if ys else None)
+                    if okc:
+                        second = ys[0].value.elts[1]
+                        if isinstance(second, ast.Name):
+                            defs = [a for a in A.walk_body(prod[0].body) if isinstance(a, ast.Assign) and any(A.src(t) == second.id for t in a.targets)]
+                            okc = len(defs) == 1 and defs[0].value is holder
+                        else:
+                            okc = second is holder
+                ctx.check("C12-h", okc, fn, "iter_bins_with_edges: %s -- a cell would be reported with other edges than its own (or with "
+                          "its bounds swapped)" % why, detail="iter_bins_with_edges: content and (low, high) per axis from one index",
+                          construct="iter_bins_with_edges-pairing")
+                ok = None
+            elif not en and comps:
+                ctx.unknown("C12-h", fn, "iter_bins_with_edges pairs the bounds in a form the rule does not read: `%s`" % A.short(comps[0], 70))
+                ok = None
             if ok:
                 ax, ii = [A.src(e) for e in en[0].target.elts]
                 apps = {}
@@ -611,8 +656,9 @@ def check_pairing(ctx):
                     ys = [y for y in A.walk_body(prod[0].body) if isinstance(y, ast.Yield)]
                     ok = len(ys) == 1 and A.src(ys[0].value).replace(" ", "") == "(%s,tuple(zip(%s,%s)))" % (binv, lows[0], highs[0])
                     why = "the yielded pair is `%s`, not (content, tuple(zip(lows, highs)))" % (A.src(ys[0].value) if ys else None)
-    ctx.check("C12-h", ok, fn, "iter_bins_with_edges: %s -- a cell would be reported with other edges than its own (or with its bounds "
-              "swapped)" % why, detail="iter_bins_with_edges: content and (low, high) per axis from one index", construct="iter_bins_with_edges-pairing")
+    if ok is not None:
+        ctx.check("C12-h", ok, fn, "iter_bins_with_edges: %s -- a cell would be reported with other edges than its own (or with its bounds "
+                  "swapped)" % why, detail="iter_bins_with_edges: content and (low, high) per axis from one index", construct="iter_bins_with_edges-pairing")
     fn = ctx.tree.func(HFm, "get_bin_edges")
     ip, ep = A.func_params(fn)[:2]
     pairs = []
